@@ -109,6 +109,7 @@ type btreeNode struct {
 }
 
 func (n *btreeNode) markDirty(lsn uint64) {
+	verifMarkDirty(n, lsn)
 	n.lastLSN = lsn
 	n.dirty = true
 }
@@ -219,6 +220,9 @@ func (n *btreeNode) findCellOffsetByKey(key uint32) (offset int, found bool) {
 }
 
 func (n *btreeNode) isFull() bool {
+	if full, ok := verifIsFull(n); ok {
+		return full
+	}
 	if n.isLeaf {
 		return len(n.offsets) >= maxLeafNodeCells
 	}
@@ -614,10 +618,13 @@ func newFileStore(path string, autoFlushCache bool) (*fileStore, error) {
 		file:           file,
 		mtx:            sync.RWMutex{},
 	}
+	verifStoreCreated(fs)
 	if autoFlushCache {
 		fs.tickerDone = make(chan bool)
 		fs.ticker = time.NewTicker(pageFlushInterval)
+		verifTickerCreated(fs)
 		go func() {
+			verifFlusherStart(fs)
 			for {
 				select {
 				case <-fs.tickerDone:
@@ -626,6 +633,7 @@ func newFileStore(path string, autoFlushCache bool) (*fileStore, error) {
 					if err := fs.flushPages(); err != nil {
 						fmt.Printf("error flushing pages: %s", err.Error())
 					}
+					verifTickDone(fs, nil)
 				}
 			}
 		}()
@@ -648,16 +656,20 @@ type fileStore struct {
 }
 
 func (f *fileStore) lockShared() {
+	verifPoint(f, "rlock")
 	f.mtx.RLock()
 }
 func (f *fileStore) unlockShared() {
+	verifPoint(f, "runlock")
 	f.mtx.RUnlock()
 }
 
 func (f *fileStore) lockExclusive() {
+	verifPoint(f, "lock")
 	f.mtx.Lock()
 }
 func (f *fileStore) unlockExclusive() {
+	verifPoint(f, "unlock")
 	f.mtx.Unlock()
 }
 
@@ -679,6 +691,7 @@ func (f *fileStore) setRoot(node *btreeNode) {
 }
 
 func (f *fileStore) setPageTableRoot(node *btreeNode) error {
+	verifPoint(f, "setPageTableRoot")
 	f.pageTableRoot = node.getFileOffset()
 	return nil
 }
@@ -688,6 +701,7 @@ func (f *fileStore) getLastKey() uint32 {
 }
 
 func (f *fileStore) incrementLastKey() error {
+	verifPoint(f, "incrementLastKey")
 	f.lastKey++
 	return nil
 }
@@ -697,6 +711,7 @@ func (f *fileStore) update(node *btreeNode) error {
 	if err != nil {
 		return err
 	}
+	verifPageWrite(f, node.getFileOffset(), buf.Bytes())
 	if _, err := f.file.WriteAt(buf.Bytes(), int64(node.getFileOffset())); err != nil {
 		return err
 	}
@@ -709,6 +724,7 @@ func (f *fileStore) update(node *btreeNode) error {
 }
 
 func (f *fileStore) append(node *btreeNode) error {
+	verifPoint(f, "append")
 	node.setFileOffset(f.nextFreeOffset)
 
 	if err := f.setCache(node.getFileOffset(), node); err != nil {
@@ -721,6 +737,7 @@ func (f *fileStore) append(node *btreeNode) error {
 }
 
 func (f *fileStore) fetch(offset uint64) (*btreeNode, error) {
+	verifFetch(f, offset)
 	if n, ok := f.cache.get(offset); ok {
 		return n, nil
 	}
@@ -767,6 +784,7 @@ func (f *fileStore) save() error {
 	if err := binary.Write(writer, binary.LittleEndian, f._nextLSN); err != nil {
 		return err
 	}
+	verifHeaderWrite(f, writer.Bytes())
 	if _, err := f.file.WriteAt(writer.Bytes(), 0); err != nil {
 		return err
 	}
@@ -793,6 +811,7 @@ func (f *fileStore) open() error {
 func (f *fileStore) flushPages() error {
 	f.lockExclusive()
 	defer f.unlockExclusive()
+	verifPoint(f, "flushStart")
 	for _, v := range f.cache.cache {
 		node := v.Value.(*cacheEntry).val
 		if !node.isDirty() {
@@ -807,6 +826,7 @@ func (f *fileStore) flushPages() error {
 }
 
 func (f *fileStore) setCache(key any, val *btreeNode) error {
+	verifPoint(f, "setCache")
 	if !f.cache.set(key, val) {
 		return ErrLRUCacheFull
 	}
@@ -818,5 +838,6 @@ func (f *fileStore) nextLSN() uint64 {
 }
 
 func (f *fileStore) incrLSN() {
+	verifPoint(f, "incrLSN")
 	f._nextLSN++
 }
